@@ -2006,6 +2006,11 @@ func (t *Topic) anotherUserSub(sess *Session, asUid, target types.Uid, asChan bo
 			modeGiven: sub.ModeGiven,
 			modeWant:  sub.ModeWant,
 			private:   nil,
+			// P2P: re-invited user who unsubscribed earlier. Keep what describes the other participant.
+			topicName: userData.topicName,
+			public:    userData.public,
+			lastSeen:  userData.lastSeen,
+			lastUA:    userData.lastUA,
 		}
 		t.perUser[target] = userData
 		t.computePerUserAcsUnion()
